@@ -313,6 +313,8 @@ struct Shared {
     dropped_at_poll: u64,
     /// surface of the last frame the application asked to be rendered (run_render sessions)
     last_frame: Option<(Snapshot, TerminalSize)>,
+    /// value of `commands` when the application drew `last_frame`
+    frame_set_at_command: u64,
     /// features string for signatures, maintained by the session
     features: String,
     /// first violation seen while checking fully delivered frames inside poll
@@ -497,6 +499,13 @@ impl Terminal for StubTerm {
         shared.dropped = true;
         shared.dropped_at_command = shared.commands;
         shared.dropped_at_poll = shared.polls;
+        if shared.commands > shared.frame_set_at_command {
+            // the commands of the last drawn frame were queued before this drop: from now on
+            // (the caller clears the renderer, which erases images right away) the screen is
+            // not that frame any more, and nothing says it should be until a frame is rendered.
+            // A drop that comes before the frame's commands leaves the frame to be judged.
+            shared.last_frame = None;
+        }
         if let Some(log) = shared.log.as_mut() {
             log.push(format!("  frames_drop: {} pending chunks", pending));
         }
@@ -736,6 +745,7 @@ pub(crate) fn check_screen(screen: &Screen, snapshot: &Snapshot, size: TerminalS
         polls: 0,
         dropped_at_poll: 0,
         last_frame: None,
+        frame_set_at_command: 0,
         features: String::new(),
         violation: None,
         frames_checked: 0,
@@ -899,7 +909,7 @@ fn run(ctx: &Ctx, src: &mut Src) -> WorldResult {
     let mut pools = gen_pools(ctx, src, size);
     let prefill = src.chance(1, 3);
     src.log(|| format!("terminal {}x{} ppc={:?} personality={} prefill={}", size.cells.height, size.cells.width, size.pixels_per_cell(), if layered { "layered" } else { "cell" }, prefill));
-    let shared = Rc::new(RefCell::new(Shared { screen: Screen::new(size, layered), pending: VecDeque::new(), pending_frame: VecDeque::new(), frame_no: 0, delivered_frame: 0, current: Vec::new(), size, commands: 0, fail_execute_in: None, log: None, dropped: false, dropped_at_command: 0, polls: 0, dropped_at_poll: 0, last_frame: None, features: String::new(), violation: None, frames_checked: 0 }));
+    let shared = Rc::new(RefCell::new(Shared { screen: Screen::new(size, layered), pending: VecDeque::new(), pending_frame: VecDeque::new(), frame_no: 0, delivered_frame: 0, current: Vec::new(), size, commands: 0, fail_execute_in: None, log: None, dropped: false, dropped_at_command: 0, polls: 0, dropped_at_poll: 0, last_frame: None, frame_set_at_command: 0, features: String::new(), violation: None, frames_checked: 0 }));
     let mut term = StubTerm { shared: shared.clone(), caps: TerminalCaps::default(), script: Rc::new(RefCell::new(VecDeque::new())), drop_all: true };
     if prefill {
         shared.borrow_mut().screen.scribble(src);
@@ -1024,7 +1034,7 @@ fn run_session(ctx: &Ctx, src: &mut Src) -> WorldResult {
     let steps = if long { 36 + src.draw(44) as usize } else { 1 + src.draw(10) as usize };
     let slow = long || src.chance(1, 3);
     src.log(|| format!("run_render session: terminal {}x{} ppc={:?} personality={} frames_drop={} steps={} slow={}", size0.cells.height, size0.cells.width, size0.pixels_per_cell(), if layered { "layered" } else { "cell" }, if drop_all { "all" } else { "all-but-in-flight" }, steps, slow));
-    let shared = Rc::new(RefCell::new(Shared { screen: Screen::new(size0, layered), pending: VecDeque::new(), pending_frame: VecDeque::new(), frame_no: 0, delivered_frame: 0, current: Vec::new(), size: size0, commands: 0, fail_execute_in: None, log: None, dropped: false, dropped_at_command: 0, polls: 0, dropped_at_poll: 0, last_frame: None, features: String::new(), violation: None, frames_checked: 0 }));
+    let shared = Rc::new(RefCell::new(Shared { screen: Screen::new(size0, layered), pending: VecDeque::new(), pending_frame: VecDeque::new(), frame_no: 0, delivered_frame: 0, current: Vec::new(), size: size0, commands: 0, fail_execute_in: None, log: None, dropped: false, dropped_at_command: 0, polls: 0, dropped_at_poll: 0, last_frame: None, frame_set_at_command: 0, features: String::new(), violation: None, frames_checked: 0 }));
     if src.tracing() {
         shared.borrow_mut().log = Some(Vec::new());
     }
@@ -1113,6 +1123,7 @@ fn run_session(ctx: &Ctx, src: &mut Src) -> WorldResult {
                     u.forced_clear |= sh.dropped;
                     sh.features = u.features();
                     sh.last_frame = Some((snap.clone(), size));
+                    sh.frame_set_at_command = sh.commands;
                     sh.frame_no = handler_calls as u64;
                 }
                 *last.borrow_mut() = Some((snap, size));
